@@ -251,6 +251,19 @@ class PwEval:
         return join(a, i, v)
 
     def mu(self, n):
+        before = set(self.memo)
+        r = self._mu(n)
+        prov = self.memo.get(n.nid)
+        if r != prov and r in (B, T):
+            # classes memoised while this mu still held its provisional class (that of its initial value) were
+            # computed from the wrong input: e.g. `out[i] = v` where v = phi(.., v_previous) stayed P although the
+            # carried value turned out to be batch-dependent.  Forget them; they are recomputed on demand.
+            for k in set(self.memo) - before:
+                if k != n.nid:
+                    del self.memo[k]
+        return r
+
+    def _mu(self, n):
         init = self.cls(n.args[0]) if n.args[0] is not None else C
         self.memo[n.nid] = init
         if n.args[1] is None or n.args[1] is n:
@@ -404,17 +417,6 @@ ROW_LAYOUT = {'exactpack.solvers.heat.hutchens2:Hutchens2', 'exactpack.solvers.h
               'exactpack.solvers.heat.cylindrical_sandwich:CylindricalSandwich'}
 
 
-def mark_readers(builder):
-    """For every mu node count the nodes, other than its own next-value chain head, that read it."""
-    for n in builder.trace:
-        for a in list(n.args) + list(n.kw.values()):
-            if a is not None and a.kind == 'mu' and a is not n and n is not a.args[1]:
-                try:
-                    a._readers = getattr(a, '_readers', 0) + 1
-                except AttributeError:
-                    pass
-
-
 def check(model, res, tier):
     classes = [ci for ci in model.solver_classes() if '_run' in ci.methods]
     summary = {}
@@ -440,6 +442,20 @@ def check(model, res, tier):
             rs = [x for x in readers.get(mu.nid, []) if x is not mu.args[1] or True]
             return len(rs) > 0
         pe.carried_use = carried_use
+        # Enter every loop cycle at its mu: a cycle first entered at an inner node (the phi a store reads) would see
+        # that node's provisional class and the mu would never see its real next value.  Loop-carried values found
+        # batch-dependent (or unresolved) are kept and everything else is re-evaluated until no further one appears.
+        mus = [n for n in b.trace if n.kind == 'mu']
+        sticky = {}
+        for _ in range(len(mus) + 1):
+            pe.memo = dict(sticky)
+            pe.top, pe.guess_ignored = {}, []
+            for n in mus:
+                pe.cls(n)
+            new = {n.nid: pe.memo[n.nid] for n in mus if pe.memo.get(n.nid) in (B, T) and n.nid not in sticky}
+            if not new:
+                break
+            sticky.update(new)
         runm = ci.find_method('_run')
         per = {}
         for sol in phi_leaves(ret):
